@@ -75,16 +75,45 @@ func (ps PathSpec) HasOp(ops string) bool {
 	return false
 }
 
+// Uniform draws an integer uniformly from [lo,hi]. rapid's IntRange is deliberately biased towards small
+// magnitudes and range ends, which makes generated geometry cluster around the origin; Uniform assembles
+// the value from single unbiased bits instead (still shrinks towards lo).
+func Uniform(t *rapid.T, label string, lo, hi int) int {
+	n := uint64(hi - lo + 1)
+	bits := 0
+	for (uint64(1) << bits) < n {
+		bits++
+	}
+	bits += 6 // extra bits make the modulo bias negligible
+	var v uint64
+	for i := 0; i < bits; i++ {
+		v <<= 1
+		if rapid.Bool().Draw(t, label) {
+			v |= 1
+		}
+	}
+	return lo + int(v%n)
+}
+
+// index draws a lattice index: half of the time uniformly, half of the time with rapid's small/edge bias
+// (the latter produces the coincidences: repeated points, zero coordinates, range ends).
+func index(t *rapid.T, label string, lo, hi int) int {
+	if rapid.Bool().Draw(t, label+"u") {
+		return Uniform(t, label, lo, hi)
+	}
+	return rapid.IntRange(lo, hi).Draw(t, label)
+}
+
 // Coord draws a coordinate from the mixture lattice(k/8) / continuous / near-lattice in [lo,hi].
 func Coord(t *rapid.T, label string, lo, hi float64) float64 {
-	mode := rapid.IntRange(0, 9).Draw(t, label+"mode")
-	k := rapid.IntRange(int(math.Ceil(lo*8)), int(math.Floor(hi*8))).Draw(t, label)
+	mode := Uniform(t, label+"mode", 0, 9)
+	k := index(t, label, int(math.Ceil(lo*8)), int(math.Floor(hi*8)))
 	v := float64(k) / 8
 	switch {
 	case mode <= 5: // lattice
 		return v
 	case mode <= 7: // continuous: lattice + fraction with 20 random bits
-		f := float64(rapid.IntRange(0, 1<<20-1).Draw(t, label+"f")) / float64(1<<20) / 8
+		f := float64(Uniform(t, label+"f", 0, 1<<20-1)) / float64(1<<20) / 8
 		if v+f > hi {
 			return v
 		}
@@ -98,13 +127,13 @@ func Coord(t *rapid.T, label string, lo, hi float64) float64 {
 
 // LatticeCoord draws k/8 only.
 func LatticeCoord(t *rapid.T, label string, lo, hi float64) float64 {
-	return float64(rapid.IntRange(int(math.Ceil(lo*8)), int(math.Floor(hi*8))).Draw(t, label)) / 8
+	return float64(index(t, label, int(math.Ceil(lo*8)), int(math.Floor(hi*8)))) / 8
 }
 
 // SmoothCoord draws a continuous coordinate (lattice + 20 random bits), never "near".
 func SmoothCoord(t *rapid.T, label string, lo, hi float64) float64 {
-	k := rapid.IntRange(int(math.Ceil(lo*8)), int(math.Floor(hi*8))-1).Draw(t, label)
-	f := float64(rapid.IntRange(0, 1<<20-1).Draw(t, label+"f")) / float64(1<<20) / 8
+	k := index(t, label, int(math.Ceil(lo*8)), int(math.Floor(hi*8))-1)
+	f := float64(Uniform(t, label+"f", 0, 1<<20-1)) / float64(1<<20) / 8
 	return float64(k)/8 + f
 }
 
